@@ -317,6 +317,24 @@ def f25_parblock_tmpfs_sparse(xcp, d):
     finally:
         shutil.rmtree(shm, ignore_errors=True)
 
+def f26_xattr_first_failure(xcp, d):
+    """C10: one extended attribute the destination refuses (first fsetxattr fails) must not cost the attributes listed after it"""
+    src = os.path.join(d, "s")
+    open(src, "w").write("data\n")
+    try:
+        for a, v in (("user.first", b"1"), ("user.second", b"2"), ("user.third", b"3")):
+            os.setxattr(src, a, v)
+    except OSError:
+        return []          # no user xattrs here: nothing to show
+    dst = os.path.join(d, "dst")
+    p = subprocess.run(["strace", "-f", "-qq", "-o", "/dev/null", "-e", "trace=fsetxattr", "-e", "inject=fsetxattr:error=EPERM:when=1",
+                        xcp, "--workers", "1", "s", "dst"], cwd=d, env=dict(os.environ, RUST_BACKTRACE="0"), capture_output=True, text=True, timeout=60)
+    try:
+        have = sorted(os.listxattr(dst))
+    except OSError:
+        have = []
+    return ["exit %d, only %s of three user attributes arrived after one refused fsetxattr" % (p.returncode, have)] if len(have) < 2 else []
+
 ALL = {"new:create-before-identity-check": f1_self_copy, "parfile:symlink-result-discarded": f2_symlink_result,
        "copy_node:dev-not-rdev": f3_device_number, "parblock:short-copy-not-retried": f5_short_copy,
        "walker:deref-does-not-follow-dir-links": f8_deref_dir_link, "finalise:chown-after-chmod": f9_setid_ownership,
@@ -334,7 +352,8 @@ ALL = {"new:create-before-identity-check": f1_self_copy, "parfile:symlink-result
        "main:same-file-by-spelling-only": f22_same_file_by_spelling,
        "main:dir-onto-file-multi-source": f23_dir_onto_file_multi,
        "backup:number-beyond-u64": f24_backup_number_beyond_u64,
-       "parblock:no-extent-map-dense-copy": f25_parblock_tmpfs_sparse}
+       "parblock:no-extent-map-dense-copy": f25_parblock_tmpfs_sparse,
+       "xattr:first-failure-stops-the-rest": f26_xattr_first_failure}
 
 def main():
     repo = sys.argv[1]
